@@ -440,7 +440,27 @@ fn next_prefix(trace: &[(u32, u32, bool)], frozen: usize, bound: Option<u32>) ->
     None
 }
 
+static CURRENT_PROPERTY: Mutex<String> = Mutex::new(String::new());
+pub fn set_current_property(p: &str) {
+    *CURRENT_PROPERTY.lock().unwrap() = p.to_string();
+}
+thread_local! {
+    static PROP_CACHE: RefCell<String> = RefCell::new(String::new());
+}
+/// whole executions are watched too: 300 s is far beyond the slowest legitimate one (a few seconds)
+pub const EXECUTION_LIMIT_MS: u64 = 300_000;
+
 pub fn run_once(f: Scenario, prefix: Vec<u32>, mode: Mode, seed: u64, want_sample: bool) -> Ctx {
+    let _exec_watch = {
+        let prop = PROP_CACHE.with(|c| {
+            if c.borrow().is_empty() {
+                *c.borrow_mut() = CURRENT_PROPERTY.lock().map(|g| g.clone()).unwrap_or_default();
+            }
+            c.borrow().clone()
+        });
+        let bytes: Vec<u8> = prefix.iter().flat_map(|x| x.to_be_bytes()).collect();
+        watch_begin_limit(if prop.is_empty() { "unknown" } else { &prop }, "execution(choice prefix as big-endian u32s)", &bytes, EXECUTION_LIMIT_MS, 1)
+    };
     let mut ctx = Ctx::new(prefix, mode, seed);
     ctx.want_sample = want_sample;
     f(&mut ctx);
@@ -772,6 +792,7 @@ pub type SharedMap<K, V> = Mutex<HashMap<K, V>>;
 
 pub struct WatchSlot {
     started_ms: AtomicU64,
+    limit_ms: AtomicU64,
     info: Mutex<(String, String, Vec<u8>)>,
 }
 static WATCH_SLOTS: OnceLock<Vec<WatchSlot>> = OnceLock::new();
@@ -785,7 +806,7 @@ pub const WATCH_LIMIT_MS: u64 = 20_000;
 fn watch_slots() -> &'static Vec<WatchSlot> {
     WATCH_SLOTS.get_or_init(|| {
         WATCH_EPOCH.get_or_init(Instant::now);
-        let v: Vec<WatchSlot> = (0..256).map(|_| WatchSlot { started_ms: AtomicU64::new(0), info: Mutex::new((String::new(), String::new(), Vec::new())) }).collect();
+        let v: Vec<WatchSlot> = (0..256).map(|_| WatchSlot { started_ms: AtomicU64::new(0), limit_ms: AtomicU64::new(WATCH_LIMIT_MS), info: Mutex::new((String::new(), String::new(), Vec::new())) }).collect();
         std::thread::Builder::new()
             .name("watchdog".into())
             .spawn(|| loop {
@@ -794,9 +815,10 @@ fn watch_slots() -> &'static Vec<WatchSlot> {
                 if let Some(slots) = WATCH_SLOTS.get() {
                     for s in slots.iter() {
                         let st = s.started_ms.load(Ordering::Relaxed);
-                        if st != 0 && now.saturating_sub(st) > WATCH_LIMIT_MS {
+                        let limit = s.limit_ms.load(Ordering::Relaxed);
+                        if st != 0 && now.saturating_sub(st) > limit {
                             let (prop, site, input) = s.info.lock().map(|g| g.clone()).unwrap_or_default();
-                            let sig = format!("{}/does-not-return-within-{}s/{}", prop, WATCH_LIMIT_MS / 1000, site);
+                            let sig = format!("{}/does-not-return-within-{}s/{}", prop, limit / 1000, site);
                             let vdir = crate::report::verif_dir();
                             let path = format!("{}/replays/{}-{:016x}.json", vdir, prop, hash64(sig.as_str()));
                             let _ = std::fs::create_dir_all(format!("{}/replays", vdir));
@@ -804,7 +826,7 @@ fn watch_slots() -> &'static Vec<WatchSlot> {
                             let _ = std::fs::write(&path, serde_json::to_string_pretty(&doc).unwrap());
                             println!("VIOLATION property={} replay={}", prop, path);
                             eprintln!("  signature: {}", sig);
-                            eprintln!("  detail: {} had not returned after {} s on a {}-byte input {}", site, WATCH_LIMIT_MS / 1000, input.len(), hex::encode(&input[..input.len().min(120)]));
+                            eprintln!("  detail: {} had not returned after {} s on a {}-byte input {}", site, limit / 1000, input.len(), hex::encode(&input[..input.len().min(120)]));
                             std::process::exit(1);
                         }
                     }
@@ -824,13 +846,21 @@ impl Drop for WatchGuard {
 
 /// Announce a call that must return; the guard clears the announcement when dropped.
 pub fn watch_begin(prop: &str, site: &str, input: &[u8]) -> WatchGuard {
+    watch_begin_limit(prop, site, input, WATCH_LIMIT_MS, 0)
+}
+
+/// `lane` 0: calls into the library; lane 1: whole executions of a scenario (a worker may have one
+/// of each open at the same time)
+pub fn watch_begin_limit(prop: &str, site: &str, input: &[u8], limit_ms: u64, lane: usize) -> WatchGuard {
     let slots = watch_slots();
-    let i = WATCH_MY_SLOT.with(|c| {
+    let base = WATCH_MY_SLOT.with(|c| {
         if c.get() == usize::MAX {
-            c.set(WATCH_NEXT.fetch_add(1, Ordering::Relaxed) % slots.len());
+            c.set((WATCH_NEXT.fetch_add(2, Ordering::Relaxed)) % (slots.len() - 1));
         }
         c.get()
     });
+    let i = (base + lane) % slots.len();
+    slots[i].limit_ms.store(limit_ms, Ordering::Relaxed);
     if let Ok(mut g) = slots[i].info.lock() {
         if g.0 != prop {
             g.0 = prop.to_string();
